@@ -58,7 +58,25 @@ def unhx(h):
     return '' if h == '-' else bytes.fromhex(h).decode()
 
 
+QUOTED_POSITIONALS = ['a"b', "it's", 'key=value', 'a=b=c', 'e\\f', 'two words', '"quoted"', 'tail\\', 'x\\"y', '=', 'a\\\\b']
+ENTRY_KINDS = [('argv', 6), ('vm', 2), ('null', 2)]
+
+
+def gen_alone(rng, cid):
+    """C16f: --pika:pu-step=N / --pika:pu-offset=N and nothing else (valid and boundary values)"""
+    topo, pus, cores, _ = rng.weighted([(t, t[3]) for t in TOPOS])
+    opt = rng.choice(['pika:pu-step', 'pika:pu-offset'])
+    v = rng.choice(['0', '1', '2', str(pus - 1), str(pus), '3'])
+    argv = [f'--{opt}={v}'] + (['in.dat'] if rng.below(3) == 0 else [])
+    lines = [f'case {cid} pus={pus} cores={cores} maskpus={pus} maskcores={cores} topo={topo.replace(" ", "_")} entry={rng.weighted(ENTRY_KINDS)}']
+    lines += [f'arg {hx(a)}' for a in argv]
+    lines.append('endcase')
+    return '\n'.join(lines)
+
+
 def gen(rng, cid):
+    if rng.below(40) == 0:
+        return gen_alone(rng, cid)
     topo, pus, cores, _ = rng.weighted([(t, t[3]) for t in TOPOS])
     env, prepend, groups = [], [], []       # groups: list of token lists kept together on the command line
     nset = rng.weighted([(1, 5), (2, 5), (3, 3), (0, 1)])
@@ -109,6 +127,9 @@ def gen(rng, cid):
                                    '--pika:ignore=1', '--pika:i=1', '--pika:pu-step=', '--pika:threads'])])
     for _ in range(rng.weighted([(0, 5), (1, 3), (2, 2), (3, 1)])):
         groups.append([rng.choice(['in.dat', 'x', 'out-1', '42', 'a.b', '-'])])
+    # C16f: positional arguments that need quoting / escaping on their way to the entry function
+    if rng.below(12) == 0:
+        groups.append([rng.choice(QUOTED_POSITIONALS)])
     if rng.below(5) == 0:
         groups.append([rng.choice(['--foo', '--foo=1', '-x', '--pika:bogus', '--pika:bogus=3', '-abc', '--verbose'])])
         if rng.below(2) == 0:
@@ -123,7 +144,7 @@ def gen(rng, cid):
     argv = [t for i in order for t in groups[i]]
     if prepend:
         env.append(('PIKA_COMMANDLINE_OPTIONS', ' '.join(prepend)))
-    lines = [f'case {cid} pus={pus} cores={cores} maskpus={pus} maskcores={cores} topo={topo.replace(" ", "_")}']
+    lines = [f'case {cid} pus={pus} cores={cores} maskpus={pus} maskcores={cores} topo={topo.replace(" ", "_")} entry={rng.weighted(ENTRY_KINDS)}']
     lines += [f'env {hx(n)} {hx(v)}' for n, v in env]
     lines += [f'arg {hx(a)}' for a in argv]
     lines.append('endcase')
@@ -149,6 +170,8 @@ def run_probe(probe, case, keys, timeout=300):
     kv = dict(x.split('=', 1) for x in header[2:])
     env = {'PATH': '/usr/bin:/bin', 'HWLOC_SYNTHETIC': kv['topo'].replace('_', ' '), 'VERIF_CFG_KEYS': keys,
            'LD_LIBRARY_PATH': os.environ.get('LD_LIBRARY_PATH', '')}
+    if kv.get('entry', 'argv') != 'argv':
+        env['VERIF_ENTRY'] = kv['entry']
     argv = [probe]
     for l in case.split('\n')[1:]:
         w = l.split()
@@ -168,12 +191,35 @@ def run_probe(probe, case, keys, timeout=300):
     return '\n'.join(rl)
 
 
+def sanitized(case):
+    """the same case with every positional argument that needs quoting replaced by a plain word"""
+    out = []
+    for l in case.split('\n'):
+        w = l.split()
+        if w and w[0] == 'arg':
+            a = unhx(w[1])
+            if not a.startswith('-') and any(ch in a for ch in '"\'\\= \t'):
+                l = 'arg ' + hx('qq')
+        out.append(l)
+    return '\n'.join(out)
+
+
 def run_cases(probe, cases, keys, jobs=8):
     os.makedirs(os.path.join(BUILD, 'work'), exist_ok=True)
     driver = os.path.join(LEAN, '.lake', 'build', 'bin', 'driver')
     # plan: inputs the model does not cover are not started at all (some of them hang the pinned tree)
     plan = subprocess.run([driver, 'cfg'], input='\n'.join(cases) + '\n', capture_output=True, text=True).stdout
     skipped = set(l.split()[1] for l in plan.split('\n') if l.startswith('case ') and ' skip ' in l)
+    # C16f: positional arguments that need quoting are outside the model but are started all the same (the
+    # monitors judge them) - unless the same input with plain positionals is outside the model too (the
+    # model stops at the first reason; some of the later ones crash or hang the pinned tree)
+    maybe = [c for c in cases if c.split('\n')[0].split()[1] in skipped
+             and any(f' skip [{w}' in l for l in plan.split('\n') if l.startswith('case ' + c.split('\n')[0].split()[1] + ' ')
+                     for w in RUNNABLE_UNMODELLED)]
+    if maybe:
+        plan2 = subprocess.run([driver, 'cfg'], input='\n'.join(sanitized(c) for c in maybe) + '\n', capture_output=True, text=True).stdout
+        still = set(l.split()[1] for l in plan2.split('\n') if l.startswith('case ') and ' skip ' in l)
+        skipped -= set(c.split('\n')[0].split()[1] for c in maybe) - still
     with ThreadPoolExecutor(max_workers=jobs) as ex:
         outs = list(ex.map(lambda c: 'R notrun' if c.split('\n')[0].split()[1] in skipped else run_probe(probe, c, keys), cases))
     # a time-out is never a verdict: rerun alone with a long limit
@@ -299,52 +345,72 @@ def main():
     t1 = time.time()
     results = run_cases(probe, cases, keys)
     t_tie = time.time() - t1
-    kinds = {'pass': 0, 'monitor': 0, 'tie': 0, 'skip': 0}
-    bad = []
+    kf = known_findings(PROP)
+    reported = set()
+    known_ids = set()
+
+    def norm(msg):
+        """stable shape of a monitor message: quoted values and digits are normalised"""
+        return re.sub(r'\d+', 'N', re.sub(r"'[^']*'", "'N'", msg))
+
+    def judge(c, r):
+        """every monitor message of a case is judged on its own: it is a KNOWN-FINDING only if it matches a
+        listed finding (input class); any other message - of the same case too - is a VIOLATION"""
+        msgs = [x.strip() for x in r['verdict'].split('monitors FAIL:')[-1].split(' | ') if x.strip()]
+        n_unknown = 0
+        for msg in msgs:
+            hit = [f for f in kf if f['signature'] and f['signature'] in norm(msg)]
+            if hit:
+                if hit[0]['id'] not in known_ids:
+                    known_ids.add(hit[0]['id'])
+                    known_lines.append(f"KNOWN-FINDING: property={PROP} {hit[0]['id']}: {msg[:220]}  [input: {readable(c)[:160]}]")
+                continue
+            n_unknown += 1
+            sig = norm(msg)[:120]
+            if sig in reported or len(violations) >= 5:
+                continue
+            reported.add(sig)
+            p = write_replay(PROP, f'monitor-{base_seed}-{len(reported)}.json',
+                             {'property': PROP, 'kind': 'monitor', 'what': msg, 'all_messages': msgs, 'input': readable(c), 'case': c,
+                              'impl_report': r['raw'], 'model_verdict': r['verdict'],
+                              'rerun_cmd': f'cd {HERE} && ./check {PROP} --replay <this file>'})
+            violations.append(f'VIOLATION property={PROP} replay={p}')
+        return n_unknown
+
+    kinds = {'pass': 0, 'monitor': 0, 'known': 0, 'tie': 0, 'skip': 0}
+    ties = []
     for c, r in zip(cases, results):
         k = kind(r)
+        if k == 'monitor':
+            k = 'monitor' if judge(c, r) else 'known'
+            # the correspondence verdict of such a case still counts
+            if ' reject ' in r['verdict'].split('monitors FAIL:')[0]:
+                ties.append(('tie', c, r))
+                kinds['tie'] += 1
         kinds[k] += 1
-        if k in ('monitor', 'tie'):
-            bad.append((k, c, r))
+        if k == 'tie':
+            ties.append((k, c, r))
     if os.environ.get('VERIF_DEBUG'):
         with open(os.environ['VERIF_DEBUG'], 'w') as f:
             for c, r in zip(cases, results):
                 f.write(kind(r) + ' :: ' + readable(c) + '\n    ' + r['verdict'] + '\n')
     bbad, bchecked, bgroups = binding_check(probe, cases, results, keys)
     for c, r, msg in bbad:
+        if kind(r) == 'pass':
+            kinds['pass'] -= 1
         r['verdict'] = r['verdict'].replace(' accept ', ' reject 0 [binding: ' + msg + '] was-accept ')
-        kinds['pass'] -= 1
         kinds['tie'] += 1
-        bad.append(('tie', c, r))
+        ties.append(('tie', c, r))
     extra_run = 0
     if (not proof_ok or kinds['tie'] > 0) and kinds['monitor'] == 0 and not replay:
         ecases = [gen(rng, f'x{base_seed}n{i}') for i in range(N_EXTRA)]
         for c, r in zip(ecases, run_cases(probe, ecases, keys)):
-            if kind(r) == 'monitor':
-                bad.append(('monitor', c, r))
+            if kind(r) == 'monitor' and judge(c, r):
                 kinds['monitor'] += 1
         extra_run = len(ecases)
 
-    kf = known_findings(PROP)
-    mon = [b for b in bad if b[0] == 'monitor']
-    ties = [b for b in bad if b[0] == 'tie']
-    reported = set()
-    if mon:
-        for k, c, r in mon:
-            msg = r['verdict'].split('monitors FAIL:')[-1].strip()
-            sig = re.sub(r"'[^']*'|=\S+|\d+", 'N', msg)[:120]
-            if sig in reported or len(violations) >= 5:
-                continue
-            reported.add(sig)
-            hit = [f for f in kf if f['signature'] and f['signature'] in sig]
-            if hit:
-                known_lines.append(f"KNOWN-FINDING: property={PROP} {hit[0]['id']}: {msg[:200]}")
-                continue
-            p = write_replay(PROP, f'monitor-{base_seed}-{len(reported)}.json',
-                             {'property': PROP, 'kind': 'monitor', 'what': msg, 'input': readable(c), 'case': c,
-                              'impl_report': r['raw'], 'model_verdict': r['verdict'],
-                              'rerun_cmd': f'cd {HERE} && ./check {PROP} --replay <this file>'})
-            violations.append(f'VIOLATION property={PROP} replay={p}')
+    if violations:
+        pass
     elif ties or not proof_ok:
         if not proof_ok:
             p = write_replay(PROP, f'proof-{base_seed}.json',
@@ -392,11 +458,13 @@ def main():
 
 
 N_QUICK, N_THOROUGH, N_EXTRA = 1200, 12000, 3000
+# inputs outside the model that are nevertheless started: the monitors judge them (C16f: quoting of positionals)
+RUNNABLE_UNMODELLED = ['argument syntax', 'positional with =']
 RULE = ('random start-ups of the probe process: 0-3 settings out of the generated table (thread count, cores, scheduler, bind, affinity, '
         'pu-step/offset, numa-sensitive, stack sizes, plain ini entries), each given through a random subset of {environment variable, '
         '--pika:ini, command-line option (=, abbreviated or separate-token form, sometimes twice), PIKA_COMMANDLINE_OPTIONS option, '
         'PIKA_COMMANDLINE_OPTIONS --pika:ini} with independent valid / boundary / malformed values, shuffled option order, positional and '
-        'unknown arguments, 6 synthetic topologies; non-trivial = at least one setting given by two or more sources, or a start-up error; '
+        'unknown arguments, positional arguments with quote characters / backslashes / blanks / =, --pika:pu-step / --pika:pu-offset alone, three entry-point variants of the probe (pika::init with f(int,char**), with f(variables_map&), pika::start(nullptr)), 6 synthetic topologies; non-trivial = at least one setting given by two or more sources, or a start-up error; '
         'distinct = distinct (topology, environment, argv)')
 TRUSTED = [
     "Lean 4.33.0 kernel (lake build); axioms admitted: propext, Classical.choice, Quot.sound only (audited with #print axioms on every property theorem each run); no native_decide/bv_decide/sorry/own axioms",
@@ -406,6 +474,8 @@ TRUSTED = [
 ]
 ASSUMPTIONS = [
     'inputs outside the modelled fragment (option files, --, quoting, signed numbers, explicit affinity descriptions, process masks, logging / help / debug options, init_params.cfg) are reported as skip and not validated',
+    'positional arguments that need quoting are outside the resolve model: such cases are started and judged by the monitors only (counted as skip, not as validated); the quoting round trip itself is the subject of C16_positional_roundtrip / C16_late_reparse_total',
+    'deviations of the pinned tree from the property as stated are reported as KNOWN-FINDING (known_findings.txt, one line per input class); every other message of the same monitors is a VIOLATION',
     'per-worker PU masks are compared with those of a start-up that gives the resolved bind/threads/cores directly (metamorphic); the mapping bind description -> masks itself is C15',
 ]
 
